@@ -6,11 +6,13 @@ import gen
 
 PID = "C05"
 MANIFEST = dict(
-    text="Lean theorems C05_flat (a whitespace-free subtree renders as indent ++ exact concatenation, all indent/eol), "
-         "C05_contiguous (that string is an infix of the rendering of any tree containing it as visible descendant), C05_adjacent "
-         "(adjacent whitespace-free siblings are emitted back to back), by mutual structural induction for all trees; the executable "
-         "statement of these three clauses is evaluated by the Lean driver on the real output for every generated case. "
-         "Clause 4 (whitespace only next to block-tag boundaries) is covered by the exact-string correspondence only (theorem pending).",
+    text="Lean theorems, all by mutual structural induction for all trees / indent / eol: C05_flat (a whitespace-free subtree renders as "
+         "indent ++ the exact concatenation of open tags, content, close tags), C05_contiguous (that string is an infix of the rendering of any "
+         "tree containing it as a visible descendant, block-inside-inline nestings included), C05_adjacent (adjacent whitespace-free siblings "
+         "are emitted back to back), C05_ws_sites / C05_ws_sites_list (over the piece view proved equal to the output by render_eq_pieces: every "
+         "maximal run of layout whitespace is immediately after or before the opening/closing tag of a whitespace-enabled tag). The executable "
+         "statement of clauses 1-3 is evaluated by the Lean driver on the real output of every generated case; clause 4 transfers through the "
+         "exact-string correspondence.",
     design="DESIGN.md §6 C05",
     note="Modelled, not verified: Python isinstance dispatch; str * int.",
     technique="Lean 4 proof by mutual structural induction + differential correspondence check (exact string)",
